@@ -137,7 +137,9 @@ func Merges(scripts []Script, reduce bool, visit func(h []Step)) {
 	full := make([][]string, n)
 	total := 0
 	for i, s := range scripts {
-		if len(s) > 0 && strings.HasPrefix(s[0], "begin") {
+		if len(s) > 0 && s[0] == "~" {
+			full[i] = s[1:] // continues a transaction begun by the family's prelude
+		} else if len(s) > 0 && strings.HasPrefix(s[0], "begin") {
 			full[i] = s // the script names its own begin op (beginro)
 		} else {
 			full[i] = append([]string{"begin"}, s...)
